@@ -151,6 +151,30 @@ def tuned_fns():
             ls.linear_fns()['callback'], g['inner'], g['evaluate']]
 
 
+def gboost_callback_fns():
+    """lambda #0 of gboost_model_t::fit under the tables of the ::fit target (spec.FTYPES ..); ::fit itself is replaced by its contract"""
+    import hooks
+    import importlib.util
+    import os
+    isp = importlib.util.spec_from_file_location('nv_c11_spec', os.path.join(os.path.dirname(os.path.abspath(__file__)), 'spec.py'))
+    sp = importlib.util.module_from_spec(isp)
+    isp.loader.exec_module(sp)
+    types = [(r'^nano::tensor1d_cmap_t$|^nano::tensor_t<nano::tensor_carray_storage_t, double, 1|^nano::tensor1d_t$|^nano::tensor_t<nano::tensor_vector_storage_t, double, 1', 'struct nv_pid'),
+             (r'^std::tuple<nano::tensor_t<nano::tensor_vector_storage_t, double, 2>, nano::tensor_t<nano::tensor_vector_storage_t, double, 2>, nano::gboost::result_t>$', 'struct nv_gcb_ret'),
+             (r'^std::tuple_element<0, std::tuple<nano::gboost::result_t, ', 'struct nv_result'),
+             (r'^std::tuple_element<[12], std::tuple<nano::gboost::result_t, ', 'struct nv_tensor2d')] + sp.FTYPES
+    calls = [(r'^ctor\|nano::tensor_t<nano::tensor_vector_storage_t, double, 1>\|void \(const tensor_t<nano::tensor_carray_storage_t, double, 1', '{0}'),     # tensor1d_t(params): a copy of the row
+             (r'^make_tuple\|[^|]*\|(nano::tensor2d_t|nano::tensor_t<nano::tensor_vector_storage_t, double, 2)', '(struct nv_gcb_ret){ {0}, {1}, {2} }'),
+             (r'^fit\|', '(nv_g_fits = nv_g_fits + 1, nv_g_fit_protos = {&6}, nv_g_fit_params = {7}.id, gboost_fit((struct nv_opaque*)self, {&1}, {&2}, {&3}, {&4}, {&5}, {&6}, (struct nv_opaque*){&7}, {&8}))!')] + sp.FCALLS
+    members = [(r'^solver\|nano::ml::params_t', 'nv_opaque_value()')] + sp.FMEMBERS
+    opaque = [x.replace('|tensor1d_cmap_t', '').replace('tensor1d_t|', '') for x in sp.FOPAQUE] + [r'^(nano::)?ml::params_t$', r'^std::any$']
+    kw = dict(types=types, calls=calls, members=members, opaque=opaque, hooks=[hooks.param_hook()], aggregates=['struct nv_fit_ret', 'struct nv_gcb_ret'])
+    cb = Fn('gmodel_fit_callback', 'src/gboost/model.cpp', 'fit', flt='gboost_model_t::fit', select=NPARAMS(4), lambda_index=0, captures=True,
+            ret='struct nv_gcb_ret', self_struct='struct nv_gmodel_f', **kw)
+    f = sp.fit_fns()
+    return [cb, f['fit'], f['selected'], f['rctor'], f['ector'], f['eround'], f['evalues'], sp.done_fn()] + [g() for g in sp.boost_fns()]
+
+
 def percentile_fn():
     VM = r'^nano::tensor1d_map_t$|^nano::tensor_t<nano::tensor_marray_storage_t, double, 1'
     return Fn('stats_percentile', 'src/machine/stats.cpp', 'percentile', flt='percentile', select=NPARAMS(2), ret='double', uf_float=False,
@@ -186,6 +210,7 @@ def targets(tier):
             for stem, cls in MF_CLASSES]
     lin.append(Target('linear_fit_tuned', tuned_fns, 'specs/C11/tuned.h', enforce='linear_fit_tuned', enums=EN,
                       replace=['linear_fit_callback', 'linear_fit_inner', 'linear_evaluate']))
+    lin.append(Target('gmodel_fit_callback', gboost_callback_fns, 'specs/C11/gcallback.h', enforce='gmodel_fit_callback', replace=['gboost_fit']))
     lin.append(Target('stats_percentile', lambda: [percentile_fn()], 'specs/C11/stats.h', enforce='stats_percentile'))
     return lin + [Target('gmodel_do_predict', lambda: [gboost_predict_fn()], P, enforce='gmodel_do_predict'),
             Target('learner_predict3', lambda: [learner_fns()['p3']], P, enforce='learner_predict3'),
